@@ -28,7 +28,8 @@ Transcription of `vermouth/processors/repair_graph.py`:
   (`node_mods + [modification]` on the image of every atom of the modification).
 * `_get_reference_residue` (`getRef`): block chosen by the requested mutation else by the residue name,
   the guard `are_all_equal(mutation)` ('Can only mutate residue … once'), `mutation[0]` on an empty list
-  (IndexError), KeyError for an unknown block / modification, the modifications applied in request order
+  (IndexError), KeyError for an unknown block / modification, the modifications applied in request order,
+  each distinct one once (`dict.fromkeys`, fix d4639ea)
   (`'none'` skipped), `modification` / `mutation` / `resname` written on every atom.
 * `make_reference` + `repair_graph` for one molecule (`pipeline`): every residue gets its reference and
   its match FIRST (an exception ends everything), residues without an answer are left out of the
@@ -266,7 +267,7 @@ def getRef (ff : FF) (resname : String) (mutation modification : Option (List St
     match ff.blocks.lookup name with
     | none => .error (.unknownBlock name)
     | some b0 =>
-      match applyMods ff (modification.getD []) b0 with
+      match applyMods ff (dedupReq (modification.getD [])) b0 with
       | .error e => .error e
       | .ok b1 =>
         let b2 := match modification with
